@@ -194,19 +194,22 @@ def declLine (f : Field) : Str := f.name ++ ':' :: f.sp ++ f.value
 
 theorem fieldLines_eq (f : Field) : fieldLines f = declLine f :: f.conts := rfl
 
+/-- the name `Deb822Field.from_line` gives the field: lower-cased, `licence` respelled -/
+def pname (f : Field) : Str := if lowerAscii f.name = licence then license else lowerAscii f.name
+
 /-- what the loop needs to know about a well-formed field -/
 structure FieldFacts (f : Field) : Prop where
   decl : isDecl (declLine f) = true
   notBlank : isBlank (declLine f) = false
   notCont : isCont (declLine f) = false
-  fromLine : ∀ k, Model.Deb822.fromLine ⟨k, declLine f⟩ = ⟨lowerAscii f.name, [⟨k, f.value⟩]⟩
+  fromLine : ∀ k, Model.Deb822.fromLine ⟨k, declLine f⟩ = ⟨pname f, [⟨k, f.value⟩]⟩
   conts : ∀ c ∈ f.conts, isCont c = true ∧ lastP isSpace c = false
   valueBlank : isBlank f.value = f.value.isEmpty
 
 def expField (f : Field) : Str × List Str :=
-  (lowerAscii f.name, if f.value.isEmpty && f.conts.isEmpty then [] else f.value :: f.conts)
+  (pname f, if f.value.isEmpty && f.conts.isEmpty then [] else f.value :: f.conts)
 
-def built (f : Field) (k : Nat) : Fld := ⟨lowerAscii f.name, ⟨k, f.value⟩ :: numberFrom (k + 1) f.conts⟩
+def built (f : Field) (k : Nat) : Fld := ⟨pname f, ⟨k, f.value⟩ :: numberFrom (k + 1) f.conts⟩
 
 def obsFld (f : Fld) : Str × List Str := (f.name, f.lines.map (·.val))
 
@@ -496,10 +499,18 @@ theorem dropNameChars_append (n rest : Str) (h : ∀ c ∈ n, isNameChar c = tru
     simp only [List.cons_append, dropNameChars, h c (by simp), if_true]
     exact ih (fun d hd => h d (by simp [hd]))
 
-theorem fieldFacts (f : Field) (h : fieldOk narrowName f = true) : FieldFacts f := by
-  simp only [fieldOk, Bool.and_eq_true, Bool.not_eq_true', Bool.or_eq_true, List.all_eq_true, bne_iff_ne, ne_eq,
+/-- `fieldOk narrowName` without the clause that keeps `licence` out: what the line-tracking loop needs -/
+def fieldOkAny (f : Field) : Bool :=
+  narrowName f.name &&
+  lineOk f.value && !headP isSpace f.value &&
+  f.conts.all (fun c => lineOk c && Model.Deb822.isCont c) &&
+  f.sp.all (fun c => c == ' ' || c == '\t') &&
+  (!f.value.isEmpty || f.sp.isEmpty)
+
+theorem fieldFactsAny (f : Field) (h : fieldOkAny f = true) : FieldFacts f := by
+  simp only [fieldOkAny, Bool.and_eq_true, Bool.not_eq_true', Bool.or_eq_true, List.all_eq_true, bne_iff_ne, ne_eq,
     narrowName] at h
-  obtain ⟨⟨⟨⟨⟨⟨⟨hhead, hall⟩, hlic⟩, hvline⟩, hvhead⟩, hconts⟩, hsp⟩, hvsp⟩ := h
+  obtain ⟨⟨⟨⟨⟨⟨hhead, hall⟩, hvline⟩, hvhead⟩, hconts⟩, hsp⟩, hvsp⟩ := h
   have hnc : ∀ c ∈ f.name, nameCh c = true := by
     intro c hc
     have := hall c hc
@@ -552,8 +563,7 @@ theorem fieldFacts (f : Field) (h : fieldOk narrowName f = true) : FieldFacts f 
     have hd : declLine f = f.name ++ ':' :: (f.sp ++ f.value) := by simp [declLine]
     unfold Model.Deb822.fromLine
     simp only [hd, hp, hstripn, hval, lowerName_nameCh f.name hnc]
-    have : lowerAscii f.name ≠ licence := hlic
-    simp [this]
+    rfl
   · intro c hc
     have := hconts c hc
     simp only [lineOk, Bool.and_eq_true, Bool.not_eq_true'] at this
@@ -565,6 +575,18 @@ theorem fieldFacts (f : Field) (h : fieldOk narrowName f = true) : FieldFacts f 
       simp only [headP] at hvhead
       simp [isBlank, hvhead]
 
+
+theorem fieldFacts (f : Field) (h : fieldOk narrowName f = true) : FieldFacts f := by
+  apply fieldFactsAny
+  simp only [fieldOk, Bool.and_eq_true] at h
+  simp only [fieldOkAny, Bool.and_eq_true]
+  obtain ⟨⟨⟨⟨⟨⟨a, _⟩, b⟩, c⟩, d⟩, e⟩, g⟩ := h
+  exact ⟨⟨⟨⟨⟨a, b⟩, c⟩, d⟩, e⟩, g⟩
+
+theorem pname_of_ok (f : Field) (h : fieldOk narrowName f = true) : pname f = lowerAscii f.name := by
+  simp only [fieldOk, Bool.and_eq_true, bne_iff_ne, ne_eq] at h
+  have : lowerAscii f.name ≠ licence := h.1.1.1.1.1.2
+  simp [pname, this]
 
 theorem lineOk_NoT (l : Str) (h : lineOk l = true) : NoT l := by
   simp only [lineOk, Bool.and_eq_true, Bool.not_eq_true'] at h
@@ -644,6 +666,17 @@ theorem tracking_sound (i : Input) (h : wfWith narrowName i = true) :
   rw [← lines_render i.paras i.finalNl hlines, ← htext] at hgo
   simp only [model]
   congr 1
+  have hexp : (i.paras.map fun p => p.fields.map expField) = expectedTracking i := by
+    unfold expectedTracking
+    apply List.map_congr_left
+    intro p hp
+    apply List.map_congr_left
+    intro f hf
+    have := hparas p hp
+    unfold expField
+    rw [pname_of_ok f (this.1.1.2 f hf)]
+  rw [← hexp, ← hgo]
+  rfl
 
 
 end Props.C06
